@@ -223,3 +223,54 @@ def oracle_sst(line, out):
         if piv == "nopiv":
             bad.append("step %d: request protected without a Partial IV" % i)
     return bad
+
+
+# ------------------------------------------------------------------ whole exchanges (rpe)
+
+def rpe_cases(quick):
+    ws = ["1", "2", "3", "32", "64"] if quick else WINDOWS
+    ns = [1, 2, 3, 5, 8] if quick else [1, 2, 3, 4, 5, 8, 13, 20]
+    for w in ws:
+        for b12 in (0, 1):
+            for con in (0, 1):
+                for n in ns:
+                    for rep in (0, 1, 2, 3):
+                        if rep and n > 8:
+                            continue
+                        yield "rpe %s %d %d %d %d" % (w, b12, con, n, rep)
+
+
+def parse_rpe(line, out):
+    """-> (rpd line for the model, [impl step strings], summary dict) or None"""
+    if "|" not in out:
+        return None
+    t = line.split()
+    left, right = out.split("|", 1)
+    toks, steps = [], []
+    for item in left.split():
+        if ":" not in item:
+            return None
+        tok, st = item.split(":", 1)
+        kind = {"g": "g", "e": "e", "r": "g", "f": "f"}.get(tok[0])
+        if kind is None:
+            return None
+        toks.append(kind + tok[1:])
+        steps.append(st)
+    summ = dict(x.split("=", 1) for x in right.split())
+    return rpd_line(t[1], int(t[2]), int(t[3]), toks), steps, summ
+
+
+def oracle_rpe(line, out):
+    p = parse_rpe(line, out)
+    if p is None:
+        return ["unparsable result: %s" % out[:100]]
+    rline, steps, summ = p
+    nreq = int(line.split()[4])
+    bad = oracle_rpd(rline, " ".join(steps)) if steps else []
+    ok = int(summ.get("ok", "-1"))
+    if ok != nreq:
+        bad.append("%d requests sent through the client API, %d answered 2.05 (codes %s)"
+                   % (nreq, ok, summ.get("codes")))
+    if int(summ.get("handler", "0")) < nreq:
+        bad.append("%d requests sent, the request handler ran %s times" % (nreq, summ.get("handler")))
+    return bad
